@@ -4,7 +4,8 @@ import CoclsModel.ThreadPoolProofsC
 /-! The thread-pool invariant holds initially and is preserved by every scheduled step, hence in every reachable state. -/
 namespace Cocls.Pool
 
-theorem inv_init (c : Cfg) (hout : c.dtorOutside = true) (hnw : 0 < c.nw) (hnt : c.nw ≤ c.nt) : Inv c (init c) := by
+theorem inv_init (c : Cfg) (hout : c.dtorOutside = true) (hnw : 0 < c.nw) (hnt : c.nw ≤ c.nt)
+    (hb : c.hasB = true → c.nw < c.nt) : Inv c (init c) := by
   constructor <;> (try simp only [init]) <;> (try dsimp only)
   all_goals (try assumption)
   all_goals (try (intros; first | rfl | omega | contradiction))
@@ -40,6 +41,69 @@ theorem inv_waitPass {c : Cfg} {s : State} {t f : Nat} (h : Inv c s) (hpc : s.pc
   unfold setPc
   inv_step h
 
+section poolB
+set_option maxHeartbeats 4000000
+
+theorem inv_bBegin {c : Cfg} {s : State} {t : Nat} {rest : List Act} {isD : Bool} (h : Inv c s) (hpc : s.pc t = Pc.idle) :
+    Inv c { s with todo := upd s.todo t rest, pc := upd s.pc t (Pc.bStopCS isD) } := by
+  have hdq : s.dq t = [] := by
+    have := h.l_dqpc t; grind [Pc.inStop]
+  have htm : s.tmp t = [] := by
+    have := h.s_tmp_pc t; grind
+  inv_step h
+
+theorem inv_bStopCS {c : Cfg} {s : State} {t : Nat} {isD : Bool} (h : Inv c s) (hpc : s.pc t = Pc.bStopCS isD) :
+    Inv c (stepBStopCS s t isD).1 := by
+  have hdq : s.dq t = [] := by
+    have := h.l_dqpc t; grind [Pc.inStop]
+  have htm : s.tmp t = [] := by
+    have := h.s_tmp_pc t; grind
+  unfold stepBStopCS
+  inv_step h
+
+theorem inv_bStopJoin {c : Cfg} {s : State} {t : Nat} (h : Inv c s) (hpc : s.pc t = Pc.bStopJoin) :
+    Inv c (stepBStopJoin s t).1 := by
+  have hdq : s.dq t = [] := by
+    have := h.l_dqpc t; grind [Pc.inStop]
+  have htm : s.tmp t = [] := by
+    have := h.s_tmp_pc t; grind
+  unfold stepBStopJoin
+  split
+  · split
+    · inv_step h
+    · unfold setPc
+      inv_step h
+  · split
+    · inv_step h
+    · unfold setPc
+      inv_step h
+
+theorem inv_bJoinBlocked {c : Cfg} {s : State} {t : Nat} (h : Inv c s) (hpc : s.pc t = Pc.bJoinBlocked) :
+    Inv c (stepBJoinBlocked s t).1 := by
+  have hdq : s.dq t = [] := by
+    have := h.l_dqpc t; grind [Pc.inStop]
+  have htm : s.tmp t = [] := by
+    have := h.s_tmp_pc t; grind
+  unfold stepBJoinBlocked
+  inv_step h
+
+theorem inv_bWorker {c : Cfg} {s : State} {t : Nat} {p : Pc} (h : Inv c s)
+    (hpc : s.pc t = Pc.bLoop ∨ s.pc t = Pc.bCvCheck ∨ s.pc t = Pc.bCvBlocked)
+    (hp : p = Pc.bExitPc ∨ p = Pc.bCvCheck ∨ p = Pc.bCvBlocked) : Inv c (setPc s t p) := by
+  have hisB : (s.pc t).isB = true := by rcases hpc with e | e | e <;> rw [e] <;> rfl
+  have hb := h.bb_pc t hisB
+  have hdq : s.dq t = [] := by
+    have := h.l_dqpc t; grind [Pc.inStop]
+  have htm : s.tmp t = [] := by
+    have := h.s_tmp_pc t; grind
+  have hdf : s.defer t = [] := by
+    have := h.b_defpc t; grind [Pc.bodyPhase]
+  have hnt := h.wf_nt
+  unfold setPc
+  rcases hp with hp | hp | hp <;> subst hp <;> inv_step h
+
+end poolB
+
 set_option maxHeartbeats 4000000 in
 theorem inv_lockWait {c : Cfg} {s : State} (f : Nat → Bool) (h : Inv c s) : Inv c { s with lockWait := f } := by
   inv_step h
@@ -74,6 +138,10 @@ theorem inv_stepPc {c : Cfg} {s : State} (h : Inv c s) (t k : Nat)
       · exact inv_waitBlock h hpc
     · exact inv_setFlag h
     · exact inv_waitSkip h
+    · exact inv_bBegin h hpc
+    · split
+      · exact inv_waitSkip h
+      · exact inv_bBegin h hpc
   · rename_i j hpc; exact inv_enqCS h hpc (hmx (by rw [hpc]; rfl))
   · rename_i j acc hpc; exact inv_afterEnq h hpc
   · rename_i isD hpc; exact inv_stopCS h hpc (hmx (by rw [hpc]; rfl))
@@ -103,8 +171,25 @@ theorem inv_stepPc {c : Cfg} {s : State} (h : Inv c s) (t k : Nat)
       have hout := h.wf_out
       unfold stepWAfterJob
       simp only [hcur, hout, Bool.false_eq_true, ↓reduceIte, Bool.not_true, Bool.false_and]
-      exact inv_fin h (Or.inr (Or.inr ⟨hpc, hcur⟩))
+      exact inv_fin h (Or.inr (Or.inr (Or.inl ⟨hpc, hcur⟩)))
   · rename_i hpc; exact inv_fin h (Or.inl hpc)
+  · rename_i hpc
+    unfold stepBLoop
+    split
+    · exact inv_bWorker h (Or.inl hpc) (Or.inl rfl)
+    · exact inv_bWorker h (Or.inl hpc) (Or.inr (Or.inl rfl))
+  · rename_i hpc
+    unfold stepBCvCheck
+    split
+    · exact inv_bWorker h (Or.inr (Or.inl hpc)) (Or.inl rfl)
+    · exact inv_bWorker h (Or.inr (Or.inl hpc)) (Or.inr (Or.inr rfl))
+  · rename_i hpc
+    unfold stepBCvBlocked
+    exact inv_bWorker h (Or.inr (Or.inr hpc)) (Or.inl rfl)
+  · rename_i hpc; exact inv_fin h (Or.inr (Or.inr (Or.inr hpc)))
+  · rename_i isD hpc; exact inv_bStopCS h hpc
+  · rename_i hpc; exact inv_bStopJoin h hpc
+  · rename_i hpc; exact inv_bJoinBlocked h hpc
   · exact h
   · exact h
 
